@@ -19,7 +19,7 @@ import itertools
 
 from mc import backends, compare, core, diff, inputs
 from mc import hist as H
-from mc.hist import C, V, M, F
+from mc.hist import C, V, O, M, F
 from mc.refmodel import R, Ambiguous, Unspecified
 
 PROP = "C27"
@@ -82,14 +82,42 @@ def subsets(lst):
 
 
 def specs():
+    """[(function name, [steps])]"""
     out = []
     for pb in PARTITIONS:
         for name, e in GROUP_FNS:
-            out.append((name, {"op": "extend", "ops": {"z": e}, "partition_by": pb}))
+            out.append((name, [{"op": "extend", "ops": {"z": e}, "partition_by": pb}]))
         for ob in ORDERS:
             for rv in subsets(ob):
                 for name, e in ORDERED_FNS:
-                    out.append((name, {"op": "extend", "ops": {"z": e}, "partition_by": pb, "order_by": ob, "reverse": rv}))
+                    out.append((name, [{"op": "extend", "ops": {"z": e}, "partition_by": pb, "order_by": ob, "reverse": rv}]))
+    # the window in context: right after an extend that re-defines its order column, its value column or
+    # nothing relevant (the SQL generator may merge the two, the window must see the new values) ...
+    CONTEXT_FNS = [f for f in ORDERED_FNS if f[0] in ("cumsum", "_row_number", "shift")]
+    prefixes = [
+        ("x_reversed", {"op": "extend", "ops": {"x": O("-", V(10), C("x"))}}),
+        ("v_doubled", {"op": "extend", "ops": {"v": O("*", C("v"), V(2))}}),
+        ("y_reversed", {"op": "extend", "ops": {"y": O("-", V(10), C("y"))}}),
+    ]
+    for pb in PARTITIONS:
+        for ob in ORDERS:
+            for rv in ([], [ob[0]]):
+                for name, e in CONTEXT_FNS:
+                    for pname, pst in prefixes:
+                        out.append((name + "@" + pname, [pst, {"op": "extend", "ops": {"z": e}, "partition_by": pb, "order_by": ob, "reverse": rv}]))
+    # ... and two consecutive windows over the same partition with different orderings (the builder may merge them)
+    OSPECS = [(ob, rv) for ob in ORDERS for rv in subsets(ob)]
+    for pb in PARTITIONS[1:2]:
+        for (ob1, rv1), (ob2, rv2) in itertools.product(OSPECS, OSPECS):
+            if (ob1, rv1) == (ob2, rv2):
+                continue
+            out.append((
+                "_row_number;_row_number",
+                [
+                    {"op": "extend", "ops": {"z": F("_row_number")}, "partition_by": pb, "order_by": ob1, "reverse": rv1},
+                    {"op": "extend", "ops": {"z2": F("_row_number")}, "partition_by": pb, "order_by": ob2, "reverse": rv2},
+                ],
+            ))
     return out
 
 
@@ -118,8 +146,8 @@ def row_orders(t, all_orders):
 def work(items, tier, open_ids):
     part = core.Part(open_ids)
     tabs = tables(tier)
-    for name, step in items:
-        hist = {"table": "d", "columns": COLS, "steps": [step]}
+    for name, steps in items:
+        hist = {"table": "d", "columns": COLS, "steps": list(steps)}
         try:
             ops = H.build(hist)
         except Exception as e:
@@ -154,7 +182,7 @@ def work(items, tier, open_ids):
                     v = diff.decide_spec(hist, data, DEVB[bk], res, CONV[bk], part, case_extra={"backend_name": bk, "function": name}, raise_ok=bk.startswith("polars"))
                     part.outcome((name, bk, v))
                     if v == "agree":
-                        part.count("agree_fn:" + name + ":" + DEVB[bk])
+                        part.count("agree_fn:" + name.split("@")[0] + ":" + DEVB[bk])
                     if v == "agree" and len(t["rows"]) == 3:
                         part.sample({"history": H.short(hist), "rows": t["rows"], "backend": bk, "z": [r[-1] for r in res[2]]}, limit=1)
     return part.dump()
@@ -181,7 +209,7 @@ def run(tier):
         exhaustive=True,
         rule=f"{len(ORDERED_FNS)} ordered window functions x 3 partition specs x 3 order specs x every reverse subset, plus {len(GROUP_FNS)} group aggregates x 3 partition specs, each on all multisets of <= 3 rows"
         + (" (and all 4-row subsets, every row order of every table)" if tier != "quick" else "")
-        + " over the row alphabet on which the declared order is total within every partition",
+        + " over the row alphabet on which the declared order is total within every partition; plus cumsum / _row_number / shift windows right after an extend that re-defines the order column, the value column or another column, and all pairs of consecutive _row_number windows over [g] with different orderings",
         extra={"agreeing_cases_per_function_and_backend": fn_cov},
     )
 
